@@ -202,10 +202,14 @@ class TiledStridedLayoutAttr(MemRefLayoutAttr, Data[TiledStridedLayout]):
         # if everything is dynamic, default to the most right stride (row-major-like)
         max_key = (tsl.dimension() - 1, tsl.tstrides[-1].depth() - 1)
         max_value = 0
+        max_bound = 0
         for dim, depth, stride in self.data:
-            if stride.step and stride.step > max_value:
+            # strides with a bound of 1 can have the same step as another stride,
+            # in that case the stride with the largest bound spans the most memory
+            if stride.step and (stride.step, stride.bound or 0) > (max_value, max_bound):
                 max_key = (dim, depth)
                 max_value = stride.step
+                max_bound = stride.bound or 0
         max_value = max_value * el_bytes
 
         # generate ops for the maximum
